@@ -6,6 +6,7 @@ use xot::{Node, Xot};
 pub fn register(v: &mut Vec<(&'static str, crate::Harness)>) {
     v.push(("h_c18_strip", h_c18_strip));
     v.push(("h_c12_clone", h_c12_clone));
+    v.push(("h_c12_xot_clone", h_c12_xot_clone));
     v.push(("h_c12_clone_with_prefixes", h_c12_clone_with_prefixes));
     v.push(("h_c20_three_ways", h_c20_three_ways));
 }
@@ -432,5 +433,57 @@ pub fn h_c20_three_ways() {
             }
             Err(_) => sym::check("serialisation-parses", false),
         }
+    }
+}
+
+fn mutate(xot: &mut Xot, victim: Node, mop: usize) {
+    match mop {
+        0 => {
+            let _ = xot.remove(victim);
+        }
+        1 => {
+            if xot.is_element(victim) {
+                let nx = xot.add_name("x");
+                xot.set_attribute(victim, nx, "changed");
+                let w = xot.add_name("w");
+                xot.set_element_name(victim, w);
+            } else if let Some(t) = xot.text_mut(victim) {
+                t.set("changed");
+            }
+        }
+        _ => {
+            if xot.is_element(victim) || xot.is_document(victim) {
+                let _ = xot.append_text(victim, "more");
+            }
+        }
+    }
+}
+
+/// cloning the whole Xot gives an independent store in which every handle and id
+/// denotes an equal node or name
+pub fn h_c12_xot_clone() {
+    let shape = sym::choose("shape", crate::world::SHAPES);
+    let mut w = crate::world::build(shape, true);
+    let all = crate::world::collect_all(&w.xot, &w.nodes);
+    let before = snapshot(&w.xot, &all);
+    let mut copy = w.xot.clone();
+    sym::check("xot-clone-every-handle-denotes-an-equal-node", snapshot(&copy, &all) == before);
+    sym::check(
+        "xot-clone-ids-keep-their-meaning",
+        copy.name_ns_str(w.name_a) == w.xot.name_ns_str(w.name_a)
+            && copy.name_ns_str(w.attr_y) == w.xot.name_ns_str(w.attr_y)
+            && copy.prefix_str(w.pfx_q) == "q"
+            && copy.namespace_str(w.ns_2) == "urn:2",
+    );
+    sym::check("source-unchanged-by-xot-clone", snapshot(&w.xot, &all) == before);
+    let side = sym::choose("mutate", 2);
+    let victim = all[sym::choose("victim", all.len())];
+    let mop = sym::choose("mop", 3);
+    if side == 0 {
+        mutate(&mut w.xot, victim, mop);
+        sym::check("xot-clone-untouched-by-mutation-of-original", snapshot(&copy, &all) == before);
+    } else {
+        mutate(&mut copy, victim, mop);
+        sym::check("original-untouched-by-mutation-of-xot-clone", snapshot(&w.xot, &all) == before);
     }
 }
